@@ -66,6 +66,28 @@ class C07(scen.WorldProp):
                 events.append(call(stop_t, stop))
             end = t0 + 3 + 22 * row_t
             N0 = N
+            if kind == "plainhunt" and spec.get("start_row") is None and rng.random() < 0.2:
+                # under Ringing Room's control: the same touch with the band playing with the switches (handbell
+                # style on / off, up-down-in) - a switch is not a call and must not cancel a Stand next
+                from harness.props.c19 import method_msg
+                ev2 = [[t0 - 0.4, "msg", method_msg(spec["stage"])]] + [e for e in events if e[2].get("call") != GO]
+                for _ in range(rng.randint(1, 4)):
+                    kv = rng.choice([["stop_at_rounds", False], ["stop_at_rounds", False], ["stop_at_rounds", True],
+                                     ["use_up_down_in", True], ["call_composition", False]])
+                    ev2.append([rng.uniform(t0 + 3, end - 3), "msg", {"m": "setting", "kvs": [kv]}])
+                if stop == STAND and rng.random() < 0.7:
+                    # handbell style is switched off just after Stand next has been called
+                    sar = True
+                    ev2.append([stop_t + rng.uniform(0.03, 0.9) * row_t, "msg",
+                                {"m": "setting", "kvs": [["stop_at_rounds", False]]}])
+                ev2.sort(key=lambda e: e[0])
+                sc = {"start": 1000.0, "end": end, "tower_size": N, "events": ev2,
+                      "on_join": scen.humans_on_join([], "Wheatley", list(range(1, 17))),
+                      "bot": scen.bot_cfg({"type": "placeholder"}, up_down_in=True, stop_at_rounds=sar,
+                                          user_name="Wheatley", server_id=6),
+                      "rhythm": scen.rhythm_cfg("wait", inertia=1.0, peal_speed=ps)}
+                yield {"k": "world", "scenario": sc, "stop": stop, "stop_t": stop_t, "t0": t0}
+                continue
             if rng.random() < 0.25:
                 # Wheatley joins a bigger tower, which is made smaller before the touch
                 N0 = N + rng.choice([1, 2, 4])
@@ -88,12 +110,16 @@ class C07(scen.WorldProp):
             return f"crash: main={reply['crashed']} handlers={reply['handler_crashes']}"
         N = sc["tower_size"]
         for ev in sc["events"]:
-            if ev[2].get("m") == "size_change":
+            if isinstance(ev[2], dict) and ev[2].get("m") == "size_change":
                 N = ev[2]["size"]
         strikes = reply["strikes"]
         rows = scen.rows_from_strikes(reply, N)
         rounds = list(range(1, N + 1))
         sar = sc["bot"]["stop_at_rounds"]
+        switched = [ev[2]["kvs"][0][1] for ev in sc["events"] if ev[2].get("m") == "setting"
+                    and ev[2]["kvs"][0][0] == "stop_at_rounds"]
+        sar_always = sar and all(switched)          # handbell style on for the whole session
+        sar = sar or any(switched)                  # ... on at some time
         stop, tc = req["stop"], req["stop_t"]
         if len(strikes) % N != 0 and strikes and scen.b2f(strikes[-1][0]) < sc["end"] - 2.0:
             return f"ringing stopped in the middle of a row ({len(strikes)} strikes on {N})"
@@ -105,7 +131,7 @@ class C07(scen.WorldProp):
             odd = [b for b, c in counts.items() if c % 2]
             if odd:
                 return f"bells {odd} were left at backstroke (odd number of strikes)"
-        if sar and stop != ROUNDS and rows:
+        if sar_always and stop != ROUNDS and rows:
             # handbell-style stop: once rounds has come up after the method started, the whole pull is completed
             # and nothing more is rung
             first = next((i for i in range(len(rows)) if rows[i] != rows[0]), None)
